@@ -15,11 +15,12 @@ def UseOk (p : Prog) (u : Nat) : Bool :=
                boundBefore p o.scope o.name o.stmt
    | none => true)
 
-/-- hypothesis on the identifier `x`: no `global`/`nonlocal` declaration of it anywhere, and every
-use of it is `UseOk` -/
+/-- hypothesis on the identifier `x`: no `global`/`nonlocal` declaration of it anywhere, it is not
+the default value of a lambda parameter, and every use of it is `UseOk` -/
 def NameOk (p : Prog) (x : Nat) : Prop :=
   ∀ o oo, p.occs[o]? = some oo → oo.name = x →
-    oo.role ≠ .globalDecl ∧ oo.role ≠ .nonlocalDecl ∧ (oo.role = .use → UseOk p o = true)
+    oo.role ≠ .globalDecl ∧ oo.role ≠ .nonlocalDecl ∧ oo.role ≠ .dfltUse ∧
+      (oo.role = .use → UseOk p o = true)
 
 /-- sel-generic version of `goto_same_var_partial` -/
 theorem gotoSel_same_var {sel : List Nat → List Nat} (hsel : IsSel sel) (p : Prog)
@@ -123,7 +124,7 @@ namely the variable of that occurrence -/
 theorem findNames_sameVar {sel : List Nat → List Nat} (hsel : IsSel sel) (p : Prog)
     (hwf : WF p = true) (o : Nat) (oo : Occ) (ho : p.occs[o]? = some oo) (hok : NameOk p oo.name) :
     SameVar p (varOf p o) (findNames sel p o) := by
-  obtain ⟨hng, hnn, huse⟩ := hok o oo ho rfl
+  obtain ⟨hng, hnn, hnd', huse⟩ := hok o oo ho rfl
   unfold findNames
   apply sameVar_insertAll
   · intro a ha
@@ -159,7 +160,7 @@ theorem definingNames_sameVar (p : Prog) (hwf : WF p = true) (u : Nat) (o : Occ)
     SameVar p (varOf p u) (definingNames p u) := by
   have hgd := globalDecls_nil_of_nameOk hok
   have hgv : globalVariables p o.name = [] := by simp [globalVariables, hgd]
-  obtain ⟨hng, hnn, huse⟩ := hok u o ho rfl
+  obtain ⟨hng, hnn, hnd', huse⟩ := hok u o ho rfl
   have hfind := findNames_sameVar isSel_id p hwf u o ho hok
   unfold definingNames
   rw [ho]
@@ -242,6 +243,7 @@ theorem definingNames_sameVar (p : Prog) (hwf : WF p = true) (u : Nat) (o : Occ)
         | param => simp [hrole] at hcd
         | globalDecl => exact absurd hrole (hok d od hod hnd).1
         | nonlocalDecl => exact absurd hrole (hok d od hod hnd).2.1
+        | dfltUse => exact absurd hrole (hok d od hod hnd).2.2.1
         | use =>
           -- goto never lands on a use
           exfalso
@@ -338,7 +340,8 @@ open JediModel.Scopes
 def nameOkB (p : Prog) (x : Nat) : Bool :=
   p.occs.zipIdx.all fun (oo, o) =>
     oo.name != x ||
-      (oo.role != .globalDecl && oo.role != .nonlocalDecl && (oo.role != .use || UseOk p o))
+      (oo.role != .globalDecl && oo.role != .nonlocalDecl && oo.role != .dfltUse &&
+        (oo.role != .use || UseOk p o))
 
 theorem nameOk_of_nameOkB {p : Prog} {x : Nat} (h : nameOkB p x = true) : NameOk p x := by
   intro o oo ho hn
@@ -347,7 +350,7 @@ theorem nameOk_of_nameOkB {p : Prog} {x : Nat} (h : nameOkB p x = true) : NameOk
   have := h (oo, o) (List.mem_zipIdx_iff_getElem?.mpr ho)
   simp only [hn, bne_self_eq_false, Bool.false_or, Bool.and_eq_true, bne_iff_ne, ne_eq,
     Bool.or_eq_true] at this
-  refine ⟨this.1.1, this.1.2, ?_⟩
+  refine ⟨this.1.1.1, this.1.1.2, this.1.2, ?_⟩
   intro hr
   rcases this.2 with h' | h'
   · exact absurd hr h'
